@@ -386,21 +386,33 @@ fn batch(args: &[String]) -> i32 {
     let replay_dir = arg(args, "--replay-dir").unwrap_or_else(|| ".".into());
     let exe = std::env::current_exe().unwrap();
 
-    let chunk = (runs + jobs - 1) / jobs;
-    let mut children = Vec::new();
-    let mut first = 0;
-    while first < runs {
-        let n = chunk.min(runs - first);
-        let ch = Command::new(&exe)
+    // --chunk K: many short-lived worker processes of K runs each ("cold" processes: state a
+    // process accumulates on first use of a type is young in every one of them); default: one
+    // long-lived worker per job
+    let chunk = arg(args, "--chunk").and_then(|s| s.parse::<u64>().ok()).filter(|&k| k > 0).unwrap_or((runs + jobs - 1) / jobs);
+    let spawn = |first: u64, n: u64| {
+        Command::new(&exe)
             .args(["sworker", &src, &seed.to_string(), &first.to_string(), &n.to_string()])
             .stdout(Stdio::piped())
             .stderr(Stdio::inherit())
             .spawn()
-            .expect("spawn worker");
-        children.push((first, n, ch));
+            .expect("spawn worker")
+    };
+    let mut pending = std::collections::VecDeque::new();
+    let mut first = 0;
+    while first < runs {
+        let n = chunk.min(runs - first);
+        pending.push_back((first, n));
         first += n;
     }
-    let recheck_n = chunk.min(runs).min(2000);
+    let mut running = std::collections::VecDeque::new();
+    while running.len() < jobs as usize {
+        match pending.pop_front() {
+            Some((f, n)) => running.push_back((f, n, spawn(f, n))),
+            None => break,
+        }
+    }
+    let recheck_n = runs.min(2000);
     let mut total = SRunStats::default();
     let (mut nruns, mut nontrivial_runs, mut fault_then) = (0u64, 0u64, 0u64);
     let mut traces = BTreeSet::new();
@@ -409,8 +421,11 @@ fn batch(args: &[String]) -> i32 {
     let mut samples = Vec::new();
     let mut failures = Vec::new();
     let mut first_ok = false;
-    for (first, n, ch) in children {
+    while let Some((first, n, ch)) = running.pop_front() {
         let o = ch.wait_with_output().expect("worker");
+        if let Some((f2, n2)) = pending.pop_front() {
+            running.push_back((f2, n2, spawn(f2, n2)));
+        }
         let w: WorkerOut = match serde_json::from_slice(&o.stdout) {
             Ok(w) => w,
             Err(e) => {
@@ -432,11 +447,11 @@ fn batch(args: &[String]) -> i32 {
             failures.push((first, f.clone()));
         }
         if first == 0 {
-            first_ok = w.failure.is_none() && w.runs >= recheck_n;
+            first_ok = true;
         }
     }
     let mut deterministic = serde_json::Value::Null;
-    if first_ok {
+    if first_ok && failures.is_empty() {
         let a = worker_hash_prefix(&exe, &src, seed, recheck_n);
         let b = worker_hash_prefix(&exe, &src, seed, recheck_n);
         deterministic = json!({"runs_rechecked": recheck_n, "identical": a.is_some() && a == b});
